@@ -314,6 +314,27 @@ pub fn run(args: &Args) {
             };
             ctx!("multi-select-hash").check(&format!("{{a: {}, b: {}}}", l, r), &expected_h, !doc.is_null());
         }
+        // 8c. a dotted name is one member, a dotted path is several: every way of cutting "a.b.x" into
+        // quoted members side by side in one multi-select, each reaching its own value
+        if i % 7 == 0 {
+            let d = json!({"a": {"b": {"x": 1}, "b.x": 2}, "a.b": {"x": 3}, "a.b.x": 4, "b": {"x": 5}, "x": 6});
+            let members = ["a.b.x", "\"a.b\".x", "a.\"b.x\"", "\"a.b.x\"", "a.b | x", "a | b.x", "\"a.b\" | x", "b.x", "a.\"b\".x"];
+            let wants = [json!(1), json!(3), json!(2), json!(4), json!(1), json!(1), json!(3), json!(5), json!(1)];
+            let mut order: Vec<usize> = (0..members.len()).collect();
+            for k in (1..order.len()).rev() {
+                let j = rng.below(k + 1);
+                order.swap(k, j);
+            }
+            let take = 2 + rng.below(members.len() - 1);
+            let pick: Vec<usize> = order.into_iter().take(take).collect();
+            let text = format!("[{}]", pick.iter().map(|k| members[*k]).collect::<Vec<_>>().join(", "));
+            let want = Value::Array(pick.iter().map(|k| wants[*k].clone()).collect());
+            let mut c = Ctx { rep: &mut rep, law: "dotted-names-and-paths", parts: json!({"members": pick.iter().map(|k| members[*k]).collect::<Vec<_>>()}), doc: &d };
+            c.check(&text, &Ok(want.clone()), true);
+            let htext = format!("{{{}}}", pick.iter().enumerate().map(|(n, k)| format!("k{}: {}", n, members[*k])).collect::<Vec<_>>().join(", "));
+            let hwant: serde_json::Map<String, Value> = pick.iter().enumerate().map(|(n, k)| (format!("k{}", n), wants[*k].clone())).collect();
+            c.check(&htext, &Ok(Value::Object(hwant)), true);
+        }
         // 8a. n copies of one member side by side: n results, whatever n is
         if i % 5 == 0 {
             let n = [2usize, 3, 5, 9, 17, 33, 65, 70, 129, 140][rng.below(10)];
@@ -413,6 +434,15 @@ pub fn run(args: &Args) {
                 (_, Err(c)) => Err(c.clone()),
             };
             ctx!("comparison").check(&format!("({}) {} ({})", l, op, r), &expected, true);
+            // the same sub-expression on both sides (possibly the very same node): as two equal values would compare
+            let expected_same: Out = match &l_out {
+                Ok(a) => match guard(s(&format!("a {} b", op), &json!({"a": a, "b": a}))) {
+                    Some(o) => o,
+                    None => continue,
+                },
+                Err(c) => Err(c.clone()),
+            };
+            ctx!("comparison-of-a-value-with-itself").check(&format!("({}) {} ({})", l, op, l), &expected_same, true);
         }
         // 11. function arguments
         {
